@@ -256,6 +256,13 @@ class Driver:
     def batch(self, lines: list[str], timeout=600) -> list[str]:
         if not lines:
             return []
+        if len(lines) > 60000:
+            # large batches: 50000-line shards, eight driver processes at a time
+            from concurrent.futures import ThreadPoolExecutor
+            shards = [lines[i:i + 50000] for i in range(0, len(lines), 50000)]
+            with ThreadPoolExecutor(max_workers=8) as ex:
+                parts = list(ex.map(lambda sh: self.batch(sh, timeout), shards))
+            return [x for part in parts for x in part]
         p = subprocess.run([str(COQ / "extract" / "_build" / "driver")], input="\n".join(lines) + "\n",
                            capture_output=True, text=True, timeout=timeout)
         out = p.stdout.split("\n")
